@@ -482,6 +482,26 @@ def tilt_representations(chk, prog):
                law, construct="representations agree%s" % (" [mag]" if with_mag else ""), **kw)
 
 
+def ecompass_frames(chk, prog):
+    """ECOMPASS: in both frames the e-compass returns a proper rotation (rows orthonormal, determinant +1) whose third row is the normalised gravity
+    measurement and whose second (NED) / first (ENU) row is horizontal-east, i.e. orthogonal to both measurements"""
+    ORI_ = "ahrs/common/orientation.py"
+    f = prog.func(ORI_ + "::ecompass")
+    chk.touch(f)
+    a, m = unit_vec("eca"), sym_vec("ecm", 3)
+    kw = dict(module=ORI_, function="ecompass", line=f.node.lineno)
+    for frame in ("NED", "ENU"):
+        def law(frame=frame):
+            it = Interp(prog)
+            R = to_obj(it.run(f, [a.copy(), m.copy()], {"frame": frame, "representation": "rotmat"}))
+            east = R[1] if frame == "NED" else R[0]
+            return all_of(eq(R @ R.T, I(3), "R R^T [%s]" % frame), eq(det(R), P.ONE, "det R [%s]" % frame), eq(R[2], a, "third row is a/|a|"),
+                          eq(sum((x * y for x, y in zip(east, a)), P.ZERO), P.ZERO, "east row orthogonal to a"),
+                          eq(sum((x * y for x, y in zip(east, m)), P.ZERO), P.ZERO, "east row orthogonal to m"))
+        chk.ob("ECOMPASS", f.ref + "::" + frame, "ecompass(a, m, frame=%r) is a proper rotation with rows (.., east, a/|a|) consistent with the frame" % frame, law,
+               construct="proper rotation [%s]" % frame, **kw)
+
+
 def pose_div(chk, prog):
     """POSE-DIV: the singularity-free estimator (Tilt, scalar and batch copy) divides only by the norms of its samples and by literals:
     any other divisor is a pose-dependent quantity that vanishes for some attitude (the documented selling point is that none does)."""
@@ -582,6 +602,7 @@ def run(chk, prog, tier):
     pose_div(chk, prog)
     am2q_route(chk, prog)
     aqua_tilt(chk, prog)
+    ecompass_frames(chk, prog)
     tilt_representations(chk, prog)
     if arm_guard(chk, prog, F + "aqua.py::AQUA.estimate") < 6:
         chk.error("ARM-GUARD: fewer than 6 guarded divisors found in AQUA.estimate (two two-armed formulas confirmed by hand)")
